@@ -61,13 +61,13 @@ FixedPoint(ro) ==
   LET r1 == ReadOne(Text, ro) IN
   IF r1.t # "ok" THEN TRUE
   ELSE LET po == PrinterFor(ro)
-           t1 == Print(r1.v, po)
+           t1 == PrintDatum(r1.v, po)
            r2 == ReadOne(t1, ro)
            f  == Fold(r1.v, po, ro)
        IN IF r2.t = "ok" /\ r2.v = f THEN
                \* printing the result again gives the same text; where folding changed the value the
                \* new text is itself a fixed point
-               LET t2 == Print(r2.v, po) r3 == ReadOne(t2, ro) IN
+               LET t2 == PrintDatum(r2.v, po) r3 == ReadOne(t2, ro) IN
                (f = r1.v => t2 = t1) /\ r3.t = "ok" /\ r3.v = r2.v
           ELSE IF r2.t = "unspec" THEN TRUE
           ELSE PrintT(<<"NOTE", "not a fixed point", Text, ro, t1, r2>>) /\ FALSE
